@@ -192,7 +192,7 @@ struct TotCase {
     css: String,
     route: usize,
 }
-const TROUTES: [&str; 4] = ["add_css", "add_agent_css", "<style> + use_doc_css", "style attribute + use_doc_css"];
+const TROUTES: [&str; 5] = ["add_css", "add_agent_css", "<style> + use_doc_css", "style attribute + use_doc_css", "<style> followed by a second, valid <style>"];
 fn check_total(c: &TotCase, cx: &mut Cx) {
     cx.state(1);
     let r: Out<String> = match c.route {
@@ -207,6 +207,11 @@ fn check_total(c: &TotCase, cx: &mut Cx) {
         2 => {
             // "</style" inside the sheet would end the element: the HTML parser's business
             let doc = format!("<style>{}</style>{DOC}", c.css.replace("</", "< /"));
+            cx.render(doc.as_bytes(), 40, &Cfg::rich().with(Opt::DocCss))
+        }
+        4 => {
+            // a malformed sheet must not reach into the next <style> element
+            let doc = format!("<style>{}</style><style>span{{display:none}} .a{{color:#0a0b0c}}</style>{DOC}", c.css.replace("</", "< /"));
             cx.render(doc.as_bytes(), 40, &Cfg::rich().with(Opt::DocCss))
         }
         _ => {
@@ -233,6 +238,11 @@ fn check_total(c: &TotCase, cx: &mut Cx) {
     if let (Out::Ok(s), 2) = (&r, c.route) {
         if toks(s) != "klmno" {
             cx.violation("<style> content changed the rendered text", || json!({"case": serde_json::to_value(c).unwrap(), "text": toks(s)}));
+        }
+    }
+    if let (Out::Ok(s), 4) = (&r, c.route) {
+        if toks(s) != "kmn" {
+            cx.violation("a <style> element changed what the following <style> element does", || json!({"case": serde_json::to_value(c).unwrap(), "text": toks(s), "expected": "kmn"}));
         }
     }
     if let (Out::Ok(s), 3) = (&r, c.route) {
@@ -308,6 +318,7 @@ impl Scope for S {
                 if u < nt * nt {
                     // sequences whose leading tokens are "p": short sequences through the document routes
                     check_total(&TotCase { css: css.clone(), route: 2 }, cx);
+                    check_total(&TotCase { css: css.clone(), route: 4 }, cx);
                     check_total(&TotCase { css, route: 3 }, cx);
                 }
             }
@@ -322,6 +333,13 @@ impl Scope for S {
                 let cs: Vec<(usize, char)> = sheet.char_indices().collect();
                 for (i, _) in cs {
                     check_total(&TotCase { css: sheet[..i].to_string(), route: 0 }, cx);
+                    // through the document: a truncated sheet neither changes the text nor
+                    // reaches into the next <style> element (sheets that hide something
+                    // themselves are left to C18)
+                    if !sheet.contains("display") {
+                        check_total(&TotCase { css: sheet[..i].to_string(), route: 2 }, cx);
+                        check_total(&TotCase { css: sheet[..i].to_string(), route: 4 }, cx);
+                    }
                 }
             }
             return;
